@@ -36,7 +36,7 @@ Acts(KS) == {[a |-> "Ctrl", c |-> x[1], code |-> x[2]] :
             \cup (IF "TEXT" \in KS /\ K("TEXT")
                   THEN {[a |-> "Text", f |-> x[1], c1 |-> x[2], c2 |-> x[3]] :
                           x \in {y \in {FieldOf(c) : c \in Chans} \X Chars \X (Chars \cup {0}) :
-                                   TextUseful(y[1]) /\ cur[y[1]] = lm /\ ~ch[cur[y[1]]].fresh}}
+                                   TextUseful(y[1]) /\ TextViolated(y[1]) \subseteq Beyond}}
                   ELSE {})
             \cup (IF "NULL" \in KS /\ K("NULL") THEN {[a |-> "Null", f |-> f] : f \in {FieldOf(c) : c \in Chans}} ELSE {})
 Apply(a) == CASE a.a = "Ctrl" -> Ctrl(a.c, a.code) [] a.a = "Text" -> Text(a.f, a.c1, a.c2) [] OTHER -> Null(a.f)
@@ -55,9 +55,12 @@ Step == IF Mix = <<>> THEN Next /\ UNCHANGED <<want, burst>>
 \* (evidence only) where the channel the pair acts on stood before the pair: <<mode, roll-up depth, row, column>>
 At == LET c == IF lastAct'.a = "Ctrl" THEN lastAct'.c ELSE IF lastAct'.a = "Text" THEN cur[lastAct'.f] ELSE 0 IN
       IF c = 0 THEN <<>> ELSE <<ch[c].mode, ch[c].roll, ch[c].row, ch[c].col>>
+\* the exclusion clauses the pair breaks (only with Beyond # {}; a swallowed repetition breaks none)
+Broken == IF lastAct'.a = "Ctrl" THEN (IF IsRep(lastAct'.c, lastAct'.code) THEN {} ELSE Violated(lastAct'.c, lastAct'.code))
+          ELSE IF lastAct'.a = "Text" THEN TextViolated(lastAct'.f) ELSE {}
 GNext == np < MaxPairs /\ Step
          /\ hist' = Append(hist, [act |-> lastAct', vis |-> [c \in 1..4 |-> IF c \in vis' THEN SetToSeq(Glyphs(c)) ELSE <<-1>>],
-                                  ev |-> [c \in 1..4 |-> c \in ev'], at |-> At])
+                                  ev |-> [c \in 1..4 |-> c \in ev'], at |-> At, beyond |-> SetToSeq(Broken)])
 GSpec == GInit /\ [][GNext]_gvars
 
 \* Probes.  Backspace, tab offsets, special characters, ENM and characters in pop-on mode are no visibility points:
@@ -69,12 +72,13 @@ Probeable(chv, lastv, c) == /\ chv[c].mode # "none" /\ (chv[c].mode = "pop" => ~
                             /\ ~(FieldOf(c) = 1 /\ lastv = <<c, ProbeCode(chv[c])>>)
 ProbeRec(chv, c) == [act |-> [a |-> "Ctrl", c |-> c, code |-> ProbeCode(chv[c])],
                      vis |-> [d \in 1..4 |-> IF d = c THEN SetToSeq(Cells(Do(chv[c], ProbeCode(chv[c])).disp)) ELSE <<-1>>],
-                     ev |-> [d \in 1..4 |-> FALSE], probe |-> TRUE]
+                     ev |-> [d \in 1..4 |-> FALSE], probe |-> TRUE, beyond |-> <<>>]
 \* the channel the last pair acted on (0: none)
 Touched == IF lastAct'.a = "Ctrl" THEN lastAct'.c ELSE IF lastAct'.a = "Text" THEN cur'[lastAct'.f] ELSE 0
 \* transition cover (breadth-first search): one behaviour per explored transition - the shortest path to its source state,
 \* the transition, a probe of the channel it touched
-TDump == PrintT(<<"TR", ToJson(IF Touched # 0 /\ Probeable(ch', last', Touched) THEN Append(hist', ProbeRec(ch', Touched)) ELSE hist')>>)
+TDump == IF Beyond # {} /\ \A i \in 1..Len(hist') : hist'[i].beyond = <<>> THEN TRUE     \* (the other covers print those)
+         ELSE PrintT(<<"TR", ToJson(IF Touched # 0 /\ Probeable(ch', last', Touched) THEN Append(hist', ProbeRec(ch', Touched)) ELSE hist')>>)
 \* random walks: the whole walk, then a probe of every channel
 RECURSIVE Probes(_, _)
 Probes(S, lastv) == IF S = {} THEN <<>>
@@ -85,7 +89,7 @@ Dump == np = MaxPairs => PrintT(<<"TR", ToJson(hist \o Probes(Chans, last))>>)
 
 NoMix == <<>>
 NoBurst == <<0>>
-BurstsWalk == <<0, 0, 0, 1, 1, 1, 1, 2, 3>>
+BurstsWalk == <<0, 0, 0, 0, 0, 0, 1, 1, 1, 2, 3>>
 \* broad walks: every class, characters more often than any single control class
 MixBroad == <<"TEXT", "TEXT", "TEXT", "TEXT", "TEXT", "PAC", "PAC", "PAC", "MID", "SPC", "RCL", "RDC", "RU", "RU", "EOC", "EOC", "EDM", "ENM",
               "CR", "CR", "BS", "DER", "TO", "NULL">>
